@@ -61,6 +61,24 @@ impl Command<D> for PEnum {
         Ok(())
     }
 }
+/// `CHn (@spec)`: converts the first channel spec to an unsigned n-tuple
+struct PChan(usize);
+impl Command<D> for PChan {
+    fn event(&self, _d: &mut D, _c: &mut Context, mut p: Parameters) -> Result<()> {
+        use scpi::parser::expression::channel_list::{ChannelList, Token as CT};
+        let list: ChannelList = p.next_data()?;
+        for item in list {
+            if let CT::ChannelSpec(sp) = item? {
+                match self.0 {
+                    1 => { let _: usize = sp.try_into()?; }
+                    2 => { let _: (usize, usize) = sp.try_into()?; }
+                    _ => { let _: (usize, usize, usize) = sp.try_into()?; }
+                }
+            }
+        }
+        Ok(())
+    }
+}
 struct QBig;
 impl Command<D> for QBig {
     fn query(&self, _d: &mut D, _c: &mut Context, _p: Parameters, mut r: ResponseUnit) -> Result<()> {
@@ -75,6 +93,9 @@ const TREE: Node<D> = Root![
     Leaf!(b"BOOL" => &PBool),
     Leaf!(b"STR" => &PStr),
     Leaf!(b"ENUM" => &PEnum),
+    Leaf!(b"CH1" => &PChan(1)),
+    Leaf!(b"CH2" => &PChan(2)),
+    Leaf!(b"CH3" => &PChan(3)),
     Leaf!(b"BIG" => &QBig)
 ];
 
@@ -101,6 +122,7 @@ pub fn rows(args: &[String]) -> i32 {
         ("type", b"ENUM 1"), ("type", b"ENUM 'FAST'"), ("type", b"I16 1S"), ("type", b"BOOL (1)"),
         ("range", b"U8 256"), ("range", b"U8 -1"), ("range", b"I16 32768"), ("range", b"I16 -32769"), ("range", b"U8 1e9"),
         ("range", b"U8 #H100"), ("range", b"I16 #HFFFF"), ("range", b"U8 300.5"),
+        ("value", b"CH1 (@-1)"), ("value", b"CH2 (@-1!2)"), ("value", b"CH2 (@1!-2)"), ("value", b"CH3 (@-1!2!3)"), ("value", b"CH3 (@1!-2!3)"), ("value", b"CH3 (@1!2!-3)"),
         ("value", b"ENUM MEDIUM"), ("value", b"BOOL MAYBE"), ("value", b"ENUM FASTER"),
     ];
     for (kind, input) in faults {
